@@ -53,3 +53,11 @@ T('C04_identities', {'s': 'str', 'N': 'int'},
 L('n_aa_strict', {'u': 'str', 'k': 'int'},
   'forall(lambda j: implies(is_aa(u[j]), n_aa(u, 0, j) < n_aa(u, 0, k)), 0, k)', ind='k', base='0')
 L('n_aa_nonneg', {'u': 'str', 'lo': 'int', 'hi': 'int'}, 'n_aa(u, lo, hi) >= 0', ind='hi', base='lo')
+
+L('n_keep_strict', {'u': 'str', 'k': 'int'},
+  'forall(lambda j: implies(keep_file(u[j]), n_keep(u, 0, j) < n_keep(u, 0, k)), 0, k)', ind='k', base='0')
+L('n_keep_nonneg', {'u': 'str', 'lo': 'int', 'hi': 'int'}, 'n_keep(u, lo, hi) >= 0', ind='hi', base='lo')
+L('n_star_nonneg', {'u': 'str', 'lo': 'int', 'hi': 'int'}, 'n_star(u, lo, hi) >= 0', ind='hi', base='lo')
+# a sequence with no star at all / whose only star is the last character
+L('n_star_zero', {'u': 'str', 'lo': 'int', 'hi': 'int'},
+  'implies(n_star(u, lo, hi) == 0, forall(lambda j: Not(u[j] == "*"), lo, hi))', ind='hi', base='lo', uses=['n_star_nonneg(u, lo, hi - 1)'])
